@@ -481,6 +481,95 @@ pub fn scenario(seed: u64, stepping: Option<Stepping>, long: bool) -> Made {
     Made { world: w, horizon, desc }
 }
 
+/// T6 beyond the type's own question: a cache-only browse is told about an instance piece by
+/// piece (a lone PTR, later an SRV without address), an interface appears, cached records pass
+/// their refresh marks - and still no question about the type, the instance or its host leaves.
+pub fn cache_only_case(seed: u64, l: &mut Local) {
+    let mut rng = Rng::new(seed);
+    let mut w = World::new(seed);
+    w.set_stepping(Stepping::Lazy);
+    let h = w.add_host(scen::single_v4());
+    w.set_ip_check_interval(h, 1);
+    let t0 = w.now();
+    let ty = "_quiet._udp.local.";
+    if rng.chance(1, 3) {
+        w.accept_unsolicited(h, true);
+    }
+    let Some(_chan) = w.browse_cache(h, ty) else { return };
+    w.run_until(t0 + 5500);
+    let mut s = scen::Svc::new(ty, "told", "told-host.local", [10, 0, 0, 35]);
+    s.ttl_ptr = *rng.pick(&[4u32, 10, 4500]);
+    s.ttl_srv = *rng.pick(&[4u32, 10, 120]);
+    s.ttl_addr = s.ttl_srv;
+    let mut events: Vec<(u64, u8)> = vec![(5600 + rng.below(500), 0)];
+    if rng.chance(2, 3) {
+        events.push((6200 + rng.below(1500), 1));
+    }
+    if rng.chance(1, 2) {
+        events.push((6500 + rng.below(3000), 2));
+    }
+    if rng.chance(1, 3) {
+        events.push((8000 + rng.below(2000), 3));
+    }
+    events.sort();
+    let mut desc = String::from("cache-only:");
+    for (t, k) in events {
+        w.run_until(t0 + t);
+        let mut m = wire::Message::response();
+        match k {
+            0 => {
+                m.answers.push(s.ptr());
+                desc.push_str(" ptr");
+            }
+            1 => {
+                m.answers.push(s.srv());
+                m.answers.push(s.txt());
+                desc.push_str(" srv+txt");
+            }
+            3 => {
+                m.answers = s.records();
+                desc.push_str(" complete");
+            }
+            _ => {
+                let ifs = vec![IfSpec::new("eth0", 2, 0, &[("10.0.0.5", 24)]), IfSpec::new("eth1", 3, 1, &[("192.168.1.5", 24)])];
+                w.set_ifs(h, ifs, "interface-added");
+                desc.push_str(" interface-added");
+                continue;
+            }
+        }
+        w.inject_msg(h, 2, scen::peer4(35), &m);
+    }
+    let horizon = t0 + 22_000;
+    w.run_until(horizon);
+    l.evaluations += 1;
+    l.distinct.insert(util::fnv_str(&format!("{desc}|{}|{}", s.ttl_ptr, s.ttl_srv)));
+    if w.trace.deaths().any(|d| matches!(d.ev, Ev::Death { panicked: true, .. })) {
+        l.inconclusive.push(format!("daemon died in a C13 cache-only scenario (seed {seed})"));
+        return;
+    }
+    l.act("T6");
+    let txs = scen::tx_msgs(&w.trace, 0);
+    let ty_name = scen::wire_name(ty);
+    for tx in txs.iter().filter(|tx| tx.msg.is_query()) {
+        let concerned = tx.msg.questions.iter().find(|q| wire::names_eq_nocase(&q.name, &ty_name) || wire::names_eq_nocase(&q.name, &s.inst) || wire::names_eq_nocase(&q.name, &s.host));
+        if let Some(q) = concerned {
+            let at_ifadd = w.trace.entries.iter().any(|e| e.t == tx.t && matches!(e.ev, Ev::Obs { obs: Obs::IpAdd(_), .. })) || w.trace.entries.iter().any(|e| e.t + 1100 >= tx.t && e.t <= tx.t && matches!(e.ev, Ev::IfEdit { .. }) && e.t > t0);
+            let why = if wire::names_eq_nocase(&q.name, &ty_name) {
+                if at_ifadd { "new-interface" } else { "refresh-of-cached-record" }
+            } else if wire::names_eq_nocase(&q.name, &s.inst) {
+                "question-about-an-instance"
+            } else {
+                "question-about-a-host"
+            };
+            l.violate(
+                Violation::new("T6", format!("T6/query-for-cache-only-browse/{why}"), format!("only a cache-only browse of {ty} is open, yet a question for {} (type {}) was sent at +{} ms", wire::escaped(&q.name), q.qtype, tx.t - t0))
+                    .with(json!({"scenario": desc, "trace": scen::witness_window(&w.trace, tx.t.saturating_sub(3000), tx.t + 5, 40)})),
+            );
+            return;
+        }
+    }
+}
+
 pub fn run_one(seed: u64, long: bool, l: &mut Local) {
     let made = scenario(seed, None, long);
     l.evaluations += 1;
@@ -513,7 +602,12 @@ pub fn run(report: &Report, tier: &Tier) {
     report.floor("T3-timeout-order", 3);
     let seed = report.seed;
     let n: u64 = if tier.thorough { 120_000 } else { 3_000 };
-    run_parallel(report, n, threads(), tier.budget_s, |i, l| {
+    run_parallel(report, n, threads(), tier.budget_s * 0.9, |i, l| {
         run_one(util::mix(seed, 0xC13_0000 + i), i % 4 == 0, l);
+    });
+    // a cache-only browse told about an instance piece by piece, an interface appearing, refresh marks passing
+    let n2: u64 = if tier.thorough { 20_000 } else { 500 };
+    run_parallel(report, n2, threads(), tier.budget_s * 0.1, |i, l| {
+        cache_only_case(util::mix(seed, 0xC13_6000 + i), l);
     });
 }
